@@ -46,13 +46,8 @@ def parse_reps(reps):
     return [[r[0], int(r[1:]) if len(r) > 1 else 0] for r in reps]
 
 
-def load_trace(tid, f, skip, work):
+def real_load(d, skip):
     from lib_guesser import grammar_io
-    d = os.path.join(work, 'l%d' % tid)
-    os.makedirs(os.path.join(d, 'Grammar'))
-    with open(os.path.join(d, 'Grammar', 'grammar.txt'), 'w') as fh:
-        for ln in f:
-            fh.write('%s\t%s\n' % (label_text(ln['s']), repr(ln['w'] / D)))
     base = []
     noise = io.StringIO()
     with contextlib.redirect_stderr(noise), contextlib.redirect_stdout(noise):
@@ -65,7 +60,20 @@ def load_trace(tid, f, skip, work):
         fr = Fraction(b['prob']).limit_denominator(64)
         out.append({'s': parse_reps(b['replacements']), 'p': [fr.numerator, fr.denominator],
                     'exact': abs(float(fr) - b['prob']) <= 1e-12})
-    return {'tid': tid, 'kind': 'load', 'D': D, 'file': f, 'skip': skip, 'ok': ok, 'out': out}
+    return ok, out
+
+
+def load_trace(tid, f, skip, work, kind='load'):
+    """kind 'load' (C14): the real load under the flag AND the real default load of the same file (the reference the
+    property is relative to); kind 'insert' (C03): the real default load against the file as written"""
+    d = os.path.join(work, 'l%s%d' % (kind[0], tid))
+    os.makedirs(os.path.join(d, 'Grammar'))
+    with open(os.path.join(d, 'Grammar', 'grammar.txt'), 'w') as fh:
+        for ln in f:
+            fh.write('%s\t%s\n' % (label_text(ln['s']), repr(ln['w'] / D)))
+    ok, out = real_load(d, skip)
+    dok, dout = real_load(d, False)
+    return {'tid': tid, 'kind': kind, 'D': D, 'file': f, 'skip': skip, 'ok': ok, 'out': out, 'dok': dok, 'defout': dout}
 
 
 def pm_of(path):
